@@ -1,0 +1,28 @@
+//go:build verif
+
+package util
+
+import "sync/atomic"
+
+// Instrumentation points of the verification framework (/verif, property C14):
+// with the build tag `verif` every verifPoint call reports the name of the
+// point and its arguments to a callback installed with SetVerifHook. The
+// callback must be cheap and must not block. Without the tag (verif_off.go)
+// verifPoint is an empty function and the calls compile to nothing.
+
+var verifHook atomic.Pointer[func(point string, args ...any)]
+
+// SetVerifHook installs (or, with nil, removes) the callback.
+func SetVerifHook(f func(point string, args ...any)) {
+	if f == nil {
+		verifHook.Store(nil)
+		return
+	}
+	verifHook.Store(&f)
+}
+
+func verifPoint(point string, args ...any) {
+	if f := verifHook.Load(); f != nil {
+		(*f)(point, args...)
+	}
+}
